@@ -208,7 +208,7 @@ class AsgDesign:
                     self.stmt_v(s, 2, out)
                 out.append("    }")
             elif k == "inst":
-                out.append("    inst u%d: Child%d (" % (pi, p[3]))
+                out.append("    inst ui%d: Child%d (" % (pi, p[3]))
                 for j, r in enumerate(p[2]):
                     out.append("        a%d: %s," % (j, self.part_v(r)))
                 for j, (v, hi, lo) in enumerate(p[1]):
